@@ -333,6 +333,8 @@ where
     /// Remove key-value pair from the CAS
     pub fn remove(&self, key: &K) -> Result<bool, LibError> {
         if self.index.read_state().contains_key(key) {
+            #[cfg(feature = "verif")]
+            crate::verif::point("remove.after_scan", crate::verif::WANT_NONE);
             let delete_fn = |hashes: &[BlobHash]| -> Result<(), CasManagerError> {
                 self.cas_manager.delete_blobs(hashes).map(|_| ())
             };
@@ -363,6 +365,8 @@ where
             return Ok(0);
         }
 
+        #[cfg(feature = "verif")]
+        crate::verif::point("remove_range.after_scan", crate::verif::WANT_NONE);
         let keys_to_remove_count = keys_to_remove.len();
 
         tracing::debug!("Removing {} keys in range {:?}", keys_to_remove_count, range);
@@ -391,6 +395,8 @@ where
             return Ok(None);
         };
 
+        #[cfg(feature = "verif")]
+        crate::verif::point("read.before_blob_open", crate::verif::WANT_NONE);
         match f(&item) {
             Ok(result) => Ok(Some(result)),
             Err(cas_error) => {
